@@ -139,3 +139,29 @@ Definition opt_eqb (a b : option nat) : bool :=
 Definition check_idom (g : graph) (e : nat) (t : pmap) : bool :=
   check_parent g e t &&
   forallb (fun w => opt_eqb (pget t w) (nth w (idom_list g e) None)) (seq 0 (length g)).
+
+(* ------------------------------------------------------------------ answer tables (for the checks) *)
+Definition sdom_rows (g : graph) (e : nat) : list (list nat) :=
+  map (fun p => filter (fun w => negb (w =? fst p)) (snd p))
+      (combine (seq 0 (length g)) (dom_rows g e)).
+
+Definition reach_rows (g : graph) : list (list nat) :=
+  map (fun u => filter (fun v => reach_plus_ref g u v) (seq 0 (length g))) (seq 0 (length g)).
+
+Definition ipdom_list (g : graph) (x : nat) : list (option nat) :=
+  map (ipdom_ref g x) (seq 0 (length g)).
+
+(* every graph on n nodes with duplicate-free sorted successor lists: (2^n)^n graphs *)
+Fixpoint sublists (l : list nat) : list (list nat) :=
+  match l with
+  | [] => [[]]
+  | x :: r => let s := sublists r in s ++ map (cons x) s
+  end.
+
+Fixpoint lists_of {A} (k : nat) (choices : list A) : list (list A) :=
+  match k with
+  | O => [[]]
+  | S k' => flat_map (fun c => map (cons c) (lists_of k' choices)) choices
+  end.
+
+Definition all_graphs (n : nat) : list graph := lists_of n (sublists (seq 0 n)).
